@@ -128,4 +128,4 @@ impl ZXMixer {
 
 #[cfg(kani)]
 #[path = "/verif/hooks/core/mixer.rs"]
-mod verif_hooks;
+pub(crate) mod verif_hooks;
